@@ -6,6 +6,7 @@ import (
 	"time"
 
 	"github.com/buildbuildio/pebbles/format"
+	"github.com/vektah/gqlparser/v2/ast"
 )
 
 type hashKey [20]byte
@@ -42,8 +43,39 @@ func (cp *CachedPlanner) hash(ctx *PlanningContext) hashKey {
 	// (both end up in the sub-requests of the root steps)
 	s := string(ctx.Operation.Operation) + " " + ctx.Operation.Name + " " +
 		format.NewBufferedFormatter().FormatSelectionSet(ctx.Operation.SelectionSet)
+	// the nodes of a plan point back to the variable declarations of the operation it was made for
+	// (types of variables inside custom scalar values, defaults), and the printed selection set shows
+	// the body of a spread fragment but not the type it is on
+	for _, vd := range ctx.Operation.VariableDefinitions {
+		s += " $" + vd.Variable + ": " + vd.Type.String()
+		if vd.DefaultValue != nil {
+			s += " = " + vd.DefaultValue.String()
+		}
+	}
+	s += fragmentConditions(ctx.Operation.SelectionSet, map[string]bool{})
 	sha1 := sha1.Sum([]byte(s))
 	return sha1
+}
+
+// fragmentConditions lists the named fragments a selection set spreads with the types they are on
+func fragmentConditions(ss ast.SelectionSet, seen map[string]bool) string {
+	res := ""
+	for _, sel := range ss {
+		switch sel := sel.(type) {
+		case *ast.Field:
+			res += fragmentConditions(sel.SelectionSet, seen)
+		case *ast.InlineFragment:
+			res += fragmentConditions(sel.SelectionSet, seen)
+		case *ast.FragmentSpread:
+			if sel.Definition == nil || seen[sel.Name] {
+				continue
+			}
+			seen[sel.Name] = true
+			res += " fragment " + sel.Name + " on " + sel.Definition.TypeCondition
+			res += fragmentConditions(sel.Definition.SelectionSet, seen)
+		}
+	}
+	return res
 }
 
 func (cp *CachedPlanner) clean() {
